@@ -97,6 +97,7 @@ type RuleSpec struct {
 	Fail     bool // the rule fails (after its start event, logging its end event)
 	Ret      bool // the rule returns its id
 	Extra    string
+	After    string // statements placed after the end event (e.g. a faulty construct)
 }
 
 // Text renders the rule. Body: ev("s",id); [boom(id)]; ev("e",id); [return id]
@@ -115,7 +116,10 @@ func (r RuleSpec) Text() string {
 		fmt.Fprintf(&sb, "  boom(%d)\n", r.ID)
 	}
 	fmt.Fprintf(&sb, "  ev(\"e\", %d)\n", r.ID)
-	if r.Ret {
+	if r.After != "" {
+		sb.WriteString("  " + r.After + "\n")
+	}
+	if r.Ret && !strings.Contains(r.After, "return") {
 		fmt.Fprintf(&sb, "  return %d\n", r.ID)
 	}
 	sb.WriteString("end\n")
